@@ -31,6 +31,9 @@ LIBCFG = {
     'internal-asan': ('clang++', 'Internal', SAN_ASAN, '-DRKCOMMON_TASKING_INTERNAL', ''),
     'debug-asan': ('clang++', 'Debug', SAN_ASAN, '', ''),
     'tbb-tsan': ('g++', 'TBB', SAN_TSAN, '-DRKCOMMON_TASKING_TBB', '-ltbb -ltbbmalloc'),
+    # optimised, unsanitised: for timing-window stress where the sanitizer's slowdown hides the window
+    'internal-o2': ('g++', 'Internal', '-O2', '-DRKCOMMON_TASKING_INTERNAL', ''),
+    'tbb-o2': ('g++', 'TBB', '-O2', '-DRKCOMMON_TASKING_TBB', '-ltbb -ltbbmalloc'),
 }
 
 
@@ -75,7 +78,7 @@ def build_lib(cfg):
                        '-DRKCOMMON_TASKING_SYSTEM=' + tasking,
                        '-DBUILD_TESTING=OFF', '-DBUILD_SHARED_LIBS=OFF',
                        '-DCMAKE_BUILD_TYPE=Debug',
-                       '-DCMAKE_CXX_FLAGS_DEBUG=' + OPT,
+                       '-DCMAKE_CXX_FLAGS_DEBUG=' + ('-O2 -g' if cfg.endswith('-o2') else OPT),
                        '-DCMAKE_CXX_FLAGS=%s -D%s -Wno-error' % (san, GUARD)], log)
             if rc != 0:
                 raise BuildError('cmake configure failed for %s (see %s)' % (cfg, log))
